@@ -209,15 +209,19 @@ def get_bin_on_value_1d(val, arr):
                 ))
             ind_guess = ind_min + shift
 
-            if ind_min == ind_guess:
+            # arr[ind_min] < val < arr[ind_max] here, so both bounds
+            # can be moved by one if the guess does not lie strictly
+            # between them. Because of numerical inaccuracies
+            # (for example, a float val and large integer edges,
+            # which are rounded when converted to float) the guess
+            # can also fall outside of [ind_min, ind_max].
+            # Treat that like a guess on the nearest bound,
+            # so that we never get into an infinite loop
+            # or index the array out of the search range.
+            if ind_guess <= ind_min:
                 ind_min += 1
                 continue
-            # ind_max is always more that ind_guess,
-            # because val < arr[ind_max] (see the formula for shift).
-            # This branch is not needed and can't be tested.
-            # But for the sake of numerical inaccuracies, let us keep this
-            # so that we never get into an infinite loop.
-            elif ind_max == ind_guess:
+            elif ind_guess >= ind_max:
                 ind_max -= 1
                 continue
 
